@@ -8,7 +8,7 @@ RULE = ("M: ImagerGeometry.tla -- constructor/setters/fit arithmetic as coded (e
         "histories of length <=MaxLen. R/V: seeded histories (ctor, birth_range, pers_range, pixel_size, fit on single diagrams and "
         "collections, skew or not; ranges that are not multiples of the pixel size) replayed on a real PersistenceImager under tick sizes "
         "1, 1/4 (exact) and 0.1, 0.7, 1/3 (inexact quotients); after every operation all public attributes, the transform output shape and "
-        "unit-box probes at pixel centres are recorded; TraceImager.tla checks the contract event by event. "
+        "tiny-box probes just inside the four corners of pixels are recorded; TraceImager.tla checks the contract event by event. "
         "Non-trivial = a history with an operation whose request is not a whole number of pixels; distinct = (history, tick).")
 TICKS = [Emb(1, 0, True, "tick=1"), Emb(Fraction(1, 4), 0, True, "tick=1/4"), Emb(Fraction(1, 10), 0, False, "tick=0.1"),
          Emb(Fraction(7, 10), 0, False, "tick=0.7"), Emb(Fraction(1, 3), 0, False, "tick=1/3"), Emb(Fraction(3, 100), 0, False, "tick=0.03")]
@@ -57,7 +57,7 @@ def to_job(ops, e):
             skew = op[2]
             # ticks are (birth, persistence); with skew=True the code expects (birth, death)
             out.append(["fit", [[[e.f(b), e.f(b + p) if skew else e.f(p)] for b, p in d] for d in op[1]], int(skew), int(op[3])])
-    return {"ops": out}
+    return {"ops": out, "tick": float(e.s)}
 
 
 def to_case(ops, obs, e):
